@@ -131,6 +131,13 @@ def main(tier, seed, args):
         cfg2, pc2 = scen_payflow.flow_cfg(1, 'pending', pending_parts=2, old_parts_in_groups=True, wait_fail_codes=(203, 204),
                                           max_total_parts=3, pay_outcomes=('complete',), parts_can_fail=True)
         cfgs.append(('held until the fate is known[restart, 2 earlier parts]', cfg2, pc2, [NoFailWhileLive(), OneAttempt()], {}))
+        # ... and a restart whose interrupted attempt turns out failed, with the set replayed part by part: the new
+        # attempt is started only once the replayed parts cover amount + fee again (seeded change C03-9)
+        cfg3, pc3 = scen_payflow.flow_cfg(2, 'pending', amounts=[503000, 503000], parts_can_fail=True, pay_outcomes=('complete',),
+                                          max_total_parts=2)
+        cov3 = Coverage(['pay'])
+        cfgs.append(('covered again before the retry[restart, failed attempt, 2 replayed parts]', cfg3, pc3,
+                     [PayBudgetMonitor(False), cov3], {}))
         scen_common.run_configs(rep, PID, c, cfgs, 400 if tier == 'quick' else 3000)
     finish(rep, [c], './check C03 --tier ' + tier)
 
